@@ -141,7 +141,7 @@ def run(ctx):
     # sparse observation: the same histories with the edited application evaluated only after every 2nd / 3rd
     # step (caches must survive several edits without an evaluation in between)
     for stride in (2, 3):
-        sub = hists if not quick else hists[stride::3]
+        sub = hists[stride::3] if quick else hists[stride::2]
         f2, raw2 = judge(ctx, vh, sub, [], "stride%d" % stride, stride=stride)
         report(ctx, sub, f2)
         ctx.extra["histories_stride_%d" % stride] = len(sub)
